@@ -287,7 +287,7 @@ fn run_case(case: &Case) -> Result<(), Fail> {
 	}
 	let universe2 = universe_of(&cfg2, &txs, &probe);
 	let mut ex = Exec::detached(&dir, &cfg2, universe2);
-	ex.model = crate::model::Model { specs: cols.clone(), cols: mcols };
+	ex.model = crate::model::Model { specs: cols.clone(), cols: mcols, locked: Default::default(), postponed: vec![] };
 	ex.open(false).map_err(|f| Fail::new(&f.kind, format!("open with the options the call left behind: {}", f.msg)))?;
 	let r = (|| -> Result<(), Fail> {
 		ex.check()?;
